@@ -311,7 +311,7 @@ func c04Fragment(c *fw.Case) (o fw.Outcome) {
 func c04AimedLength(c *fw.Case) (o fw.Outcome) {
 	r := c.R
 	j := c.Idx / 50
-	j -= j / 5 // every fifth slot belongs to the fragmentation family
+	j -= j / 5   // every fifth slot belongs to the fragmentation family
 	hi := j % 65 // 64 = the one-octet form
 	level := (j / 65) % 3
 	var target int
@@ -332,17 +332,17 @@ func c04AimedLength(c *fw.Case) (o fw.Outcome) {
 		pdu.Present = 1
 		pdu.InitiatingMessage = &ngapType.InitiatingMessage{}
 		if uplink {
-			pdu.InitiatingMessage.ProcedureCode.Value = ngapType.ProcedureCodeUplinkNASTransport
+			pdu.InitiatingMessage.ProcedureCode.Value = 46 // id-UplinkNASTransport (TS 38.413 9.4.7; literals, not the library constants)
 			pdu.InitiatingMessage.Value.Present = ngapType.InitiatingMessagePresentUplinkNASTransport
 			ul := &ngapType.UplinkNASTransport{}
 			pdu.InitiatingMessage.Value.UplinkNASTransport = ul
-			for _, id := range []int64{ngapType.ProtocolIEIDAMFUENGAPID, ngapType.ProtocolIEIDRANUENGAPID, ngapType.ProtocolIEIDNASPDU} {
+			for _, id := range []int64{10, 85, 38} {
 				ie := ngapType.UplinkNASTransportIEs{}
 				ie.Id.Value = id
 				switch id {
-				case ngapType.ProtocolIEIDAMFUENGAPID:
+				case 10:
 					ie.Value.Present, ie.Value.AMFUENGAPID = ngapType.UplinkNASTransportIEsPresentAMFUENGAPID, amf
-				case ngapType.ProtocolIEIDRANUENGAPID:
+				case 85:
 					ie.Value.Present, ie.Value.RANUENGAPID = ngapType.UplinkNASTransportIEsPresentRANUENGAPID, ran
 				default:
 					ie.Value.Present, ie.Value.NASPDU = ngapType.UplinkNASTransportIEsPresentNASPDU, nas
@@ -351,17 +351,17 @@ func c04AimedLength(c *fw.Case) (o fw.Outcome) {
 			}
 			return pdu
 		}
-		pdu.InitiatingMessage.ProcedureCode.Value = ngapType.ProcedureCodeDownlinkNASTransport
+		pdu.InitiatingMessage.ProcedureCode.Value = 4 // id-DownlinkNASTransport
 		pdu.InitiatingMessage.Value.Present = ngapType.InitiatingMessagePresentDownlinkNASTransport
 		dl := &ngapType.DownlinkNASTransport{}
 		pdu.InitiatingMessage.Value.DownlinkNASTransport = dl
-		for _, id := range []int64{ngapType.ProtocolIEIDAMFUENGAPID, ngapType.ProtocolIEIDRANUENGAPID, ngapType.ProtocolIEIDNASPDU} {
+		for _, id := range []int64{10, 85, 38} {
 			ie := ngapType.DownlinkNASTransportIEs{}
 			ie.Id.Value = id
 			switch id {
-			case ngapType.ProtocolIEIDAMFUENGAPID:
+			case 10:
 				ie.Value.Present, ie.Value.AMFUENGAPID = ngapType.DownlinkNASTransportIEsPresentAMFUENGAPID, amf
-			case ngapType.ProtocolIEIDRANUENGAPID:
+			case 85:
 				ie.Value.Present, ie.Value.RANUENGAPID = ngapType.DownlinkNASTransportIEsPresentRANUENGAPID, ran
 			default:
 				ie.Value.Present, ie.Value.NASPDU = ngapType.DownlinkNASTransportIEsPresentNASPDU, nas
